@@ -492,7 +492,10 @@ def rule_splitter(ctx, px):
     lvar = None
     for n in ast.walk(pf.node):
         if isinstance(n, (ast.Assign, ast.AnnAssign)) and n.value is not None and any(x is up[0] for x in ast.walk(n.value)):
-            lvar = unparse(n.targets[0] if isinstance(n, ast.Assign) else n.target)
+            tg = n.targets[0] if isinstance(n, ast.Assign) else n.target
+            if isinstance(tg, (ast.Tuple, ast.List)) and len(tg.elts) == 1:      # (length,) = struct.unpack_from(...)
+                tg = tg.elts[0]
+            lvar = unparse(tg)
     ok = li is not None and lo is not None and hi is not None and pv is not None and unparse(up[0].args[0]) in ("'>i'",) \
         and (li - lo).terms == {} and (li - lo).const == 8 and (hi - lo).const == 12 and (hi - lo).terms == {lvar: 1} and (pv - hi).terms == {} and (pv - hi).const == 0 \
         and lo.terms == {"self._pos": 1} and lo.const == 0
@@ -931,6 +934,28 @@ def rule_size_accounting(ctx, px):
         ob(ctx, R, f, f.node.lineno, "pyx-sizer-header-key", txt == "h_key.encode('utf-8')", f"the compiled sizer measures `{txt}` for a header key, the writer emits h_key.encode('utf-8')")
 
 
+
+def rule_legacy_append_atomic(ctx):
+    R = "refuse-is-pure"
+    # the v0/v1 Python builder: a record is registered (buffer list, size cursor) only after it was encoded successfully -- the encode
+    # step validates types and ranges and may raise; the producer then reports the error for THAT record and keeps using the batch
+    fi = ctx.fn(f"{PYL}._LegacyRecordBatchBuilderPy.append")
+    c = ctx.cfg(fi)
+    enc = [n for n in c.nodes if n.kind == "call" and call_attr(n.ast) == "_encode_msg"]
+    ctx.anchor(len(enc) == 1, "_encode_msg call in the legacy builder's append")
+    writes = [n for n in c.nodes if (n.kind == "store" and isinstance(n.ast, ast.Attribute) and unparse(n.ast.value) == "self")
+              or (n.kind == "call" and call_attr(n.ast) in ("append", "extend") and unparse(n.ast.func.value).startswith("self."))]
+    ctx.anchor(len(writes) >= 2, "builder state writes in the legacy append")
+    for w in writes:
+        ctx.ob(R, fi, w, c.dominates(enc[0], w) and not c.path_exists(w, enc[0]),
+               f"`{w.text()[:50]}` registers the record before it has been encoded: when encoding raises (bad type, out-of-range timestamp) a half-written phantom record stays in the batch",
+               text="legacy-registered-after-encode:" + w.text()[:40])
+    # a refused record (batch full) leaves no trace
+    rn = [r for r in c.nodes if r.kind == "return" and (r.ast.value is None or (isinstance(r.ast.value, ast.Constant) and r.ast.value.value is None))]
+    ok = bool(rn) and all(not any(c.path_exists(w, r, exc=False) for w in writes) for r in rn)
+    ctx.ob(R, fi, fi.node, ok, "a refused record (`return None`) can follow a write to the builder", text="legacy-refuse-pure")
+
+
 def run(ctx):
     rep = ctx.rep
     rep.explanation = ("C09: the shape-level part of codec agreement: header layout stated five times and compared with the format's reference "
@@ -944,6 +969,7 @@ def run(ctx):
     rule_splitter(ctx, px)
     rule_crc_table(ctx)
     rule_refuse_pure(ctx, px)
+    rule_legacy_append_atomic(ctx)
     rule_next_offset(ctx, px)
     rule_mask_compare(ctx, px)
     rule_xerial(ctx)
